@@ -268,7 +268,7 @@ func (c Case) goData() map[string]any {
 		if v.K == "missing" {
 			continue
 		}
-		d[k] = v.Go()
+		d[k] = goValue(v)
 	}
 	return d
 }
@@ -295,6 +295,11 @@ func (c Case) lookup(path string, k int) vals.V {
 	if v, ok := c.Data[path]; ok {
 		return v
 	}
+	if base, field, ok := strings.Cut(path, "."); ok {
+		if p, has := c.Data[base]; has && p.K == "post" {
+			return postField(p, field)
+		}
+	}
 	return vals.Missing()
 }
 
@@ -314,7 +319,7 @@ func strForm(v vals.V) (string, bool) {
 	case "*int", "*string", "func", "chan":
 		return "", false
 	}
-	return fmt.Sprint(v.Go()), true
+	return fmt.Sprint(goValue(v)), true
 }
 
 // pairVal is the value an object entry evaluates to, with its documented truthiness.
@@ -362,7 +367,7 @@ func (c Case) pairVal(p Pair, k int) (v vals.V, truthy, specified bool) {
 			v = c.lookup(pickd, k)
 		}
 	}
-	truthy, specified = v.Truthy()
+	truthy, specified = truthyOf(v)
 	return
 }
 
@@ -565,7 +570,7 @@ func (c Case) model(k int) *expect {
 			}
 		case "bind", "vbind":
 			v := c.lookup(a.Text, k)
-			truthy, spec := v.Truthy()
+			truthy, spec := truthyOf(v)
 			s, sok := strForm(v)
 			switch a.Name {
 			case "class":
@@ -648,7 +653,7 @@ func (c Case) model(k int) *expect {
 			if a.Gt != nil {
 				_, truthy, spec = c.pairVal(Pair{Src: "gt", Arg: a.Text, N: *a.Gt}, k)
 			} else {
-				truthy, spec = c.lookup(a.Text, k).Truthy()
+				truthy, spec = truthyOf(c.lookup(a.Text, k))
 			}
 			switch {
 			case !spec:
@@ -776,7 +781,7 @@ func check(c Case) error {
 	// elements whose own condition is off are C03's subject
 	for _, a := range c.Attrs {
 		if a.Kind == "dir" && (a.Name == "v-if" || a.Name == "v-else-if") {
-			if t, spec := c.lookup(a.Text, 0).Truthy(); !t || !spec {
+			if t, spec := truthyOf(c.lookup(a.Text, 0)); !t || !spec {
 				return nil
 			}
 		}
